@@ -864,9 +864,10 @@ def c16(report, rng, tier, findings):
     finally:
         qc.all_selected = orig
         pq.all_selected = orig
-    return ['EqlModel.Props.C16'], [
-        "theorems: the shapes [p, e] / [e] without condition, with a condition on the parent, with a comparison on the element; "
-        "conjunctions/disjunctions and [e, p] order are covered by correspondence",
+    return ['EqlModel.Props.C16', 'EqlModel.Lemmas.Flat', 'EqlModel.Lemmas.FlatAdm'], [
+        "theorems: list equalities for the shapes [p, e] / [e] without condition, with a condition on the parent, with a comparison "
+        "on the element; set-level soundness/completeness for every condition and selection with flatten nodes, the equivalence "
+        "c16_unnest_rows_iff for uniform disjunctions; multiplicities of disjunctions and [e, p] order are covered by correspondence",
         "multiset equality is claimed for inner collections without a repeated element inside one collection"]
 
 
